@@ -25,6 +25,10 @@ func fragEval(g *Gen, n int, o *Out) {
 			continue
 		}
 		req, ans := evalCase(opts, expr, datum)
+		for _, m := range mutations {
+			o.finding(m)
+		}
+		mutations = nil
 		o.emit(req, ans)
 		o.count("outcome:" + ans)
 		for _, op := range opsIn(wire) {
